@@ -346,7 +346,9 @@ HARNESSES = [
       timeout={"quick": 120, "thorough": 1200}),
 ]
 
-VECTORS = {
+# Vectors are written for 4 triggers and padded to the current tier's bounds when the runner reads them
+# (extra triggers are plain 'after' triggers; "no raiser" / "external removal" move to the new n).
+_V4 = {
     "fire_order": [([1, 1, 2, 3], 4, [1, 0, 0, 0], False), ([0, 1, 2, 3], 2, [0, 0, 0, 0], True),
                    ([3, 2, 1, 0], 0, [0, 0, 0, 0], False), ([1, 1, 1, 1], 1, [2, 0, 0, 0], True)],
     "remove_before": [([0, 1, 2, 0], [0, 0]), ([2, 2, 1, 0], [3, 1]), ([1, 1, 1, 1], [])],
@@ -354,3 +356,19 @@ VECTORS = {
                       ([0, 1, 1, 2], 4, 3, True), ([0, 1, 1, 2], 1, 1, False), ([0, 1, 1, 2], 0, 2, False),
                       ([0, 0, 1, 2], 1, 1, True), ([0, 0, 1, 2], 4, 0, True), ([0, 0, 1, 2], 4, 0, False)],
 }
+
+
+class _Vectors(dict):
+    def items(self):
+        b = B or BOUNDS["quick"]
+        n, nf = b["n"], b["nf"]
+        out = {
+            "fire_order": [(k + [3] * (nf - 4), nf if r == 4 else r, f + [0] * (nf - 4), ff)
+                           for k, r, f, ff in _V4["fire_order"]],
+            "remove_before": [(p + [2] * (n - 4), rm) for p, rm in _V4["remove_before"]],
+            "remove_during": [(p + [2] * (n - 4), n if w == 4 else w, t, d) for p, w, t, d in _V4["remove_during"]],
+        }
+        return out.items()
+
+
+VECTORS = _Vectors(_V4)
